@@ -95,8 +95,8 @@ prop(
                "hang is attributed to a reference cycle the client built (HasSubtype among reference types or data "
                "types, aggregation) when the harness finds one with the server's own exact-type lookup.",
     level_note="The hang verdict is the only one that rests on wall clock: a call that has not returned after 5 s (a "
-               "normal call takes under 10 ms), confirmed in a second process with 15 s; a single occurrence is "
-               "reported as inconclusive. The child runs requests on an 8 MB main-thread stack, the server's tokio "
+               "normal call takes under 10 ms), confirmed in a second process with 15 s; a call that returns in that second process was merely slow "
+               "(loaded machine): it is counted (slow_calls_that_returned_on_the_rerun) and noted, not a verdict. The child runs requests on an 8 MB main-thread stack, the server's tokio "
                "workers have 2 MB, so bounded recursion between the two is missed. DeleteNodes never names the probe "
                "node or its parents. Sessions are fresh per sequence because ticks move the session's clock ahead.",
     shards={"quick": 8, "thorough": 16},
